@@ -42,6 +42,7 @@ def neighbours():
 
 class C06(Prop):
     id = "C06"
+    tour_noisy = False
     level = "exploration"
     technique = "callback-log monitor on a running bridge fed over loopback UDP; each judged datagram bracketed by sentinel broadcasts; gate + unknown-model oracle"
     rule = ("judged datagrams: (a) every length 0..400 x {fe f0 magic, no magic, 5 near-magics} x random/zero/capture-derived content (gate-passing "
